@@ -161,6 +161,23 @@ theorem firstFree_spec (fs : FS) (p : String) (fuel cnt : Nat) :
         · exact h' j (by omega) (by omega)
     · rw [if_neg h]; left; simpa using h
 
+/-- every suffix the search stepped over is taken: the chosen one is the least candidate -/
+theorem firstFree_least (fs : FS) (p : String) (fuel cnt : Nat) :
+    cnt ≤ firstFree fs p fuel cnt ∧
+    ∀ j, cnt ≤ j → j < firstFree fs p fuel cnt → isFile fs (bakName p j) = true := by
+  induction fuel generalizing cnt with
+  | zero => exact ⟨Nat.le_refl _, fun j h1 h2 => by unfold firstFree at h2; omega⟩
+  | succ f ih =>
+    unfold firstFree
+    by_cases h : isFile fs (bakName p cnt) = true
+    · rw [if_pos h]
+      obtain ⟨h1, h2⟩ := ih (cnt + 1)
+      refine ⟨by omega, fun j hj1 hj2 => ?_⟩
+      by_cases hj : j = cnt
+      · rw [hj]; exact h
+      · exact h2 j (by omega) hj2
+    · rw [if_neg h]; exact ⟨Nat.le_refl _, fun j h1 h2 => by omega⟩
+
 /-- pigeonhole: with `p` itself a file, the directory cannot also hold `fs.length` numbered backups -/
 theorem firstFree_free {fs : FS} {p : String} (hp : isFile fs p = true) :
     isFile fs (bakName p (firstFree fs p fs.length 1)) = false := by
